@@ -191,6 +191,8 @@ type Options struct {
 	BigBodies          bool // more statements (bad smells)
 	CollidingPkgs      bool // package names whose concatenations collide (C08 arch)
 	TwinNames          bool // the same simple class name in two packages plus an un-imported user of it
+	Getters            bool // extra getters/setters of differing lengths
+	SamePkgConflict    bool // two files of one package using one simple name through different imports
 }
 
 var (
@@ -222,6 +224,10 @@ type gctx struct {
 	// forceField[i] = simple type name class i must hold in an un-imported field (same-package reference
 	// to a simple name that also exists in another package: resolution must not depend on list order)
 	forceField map[int]string
+	// forceImport[i] = qualified type class/interface i must import and use (field type, or the
+	// extended type of an interface): two files of one package using the same simple name with
+	// different imports - a resolution must never be carried from one file to the other
+	forceImport map[int]string
 }
 
 func (g *gctx) pick(ss []string) string { return ss[g.t.Pick(len(ss))] }
@@ -292,6 +298,22 @@ func GenProject(t *tape.Tape, o Options) *Project {
 			g.forceField[len(g.classes)-1] = c.name
 		}
 	}
+	g.forceImport = map[int]string{}
+	if o.SamePkgConflict && t.Bool(1, 2) {
+		pkg := g.classes[t.Pick(len(g.classes))].pkg
+		simpleName := g.pick([]string{"Helper", "Shape", "Tracker"})
+		quals := []string{"org.ext." + simpleName, "com.acme." + simpleName}
+		ifaces := t.Bool(1, 2)
+		for k := 0; k < 2; k++ {
+			name := fmt.Sprintf("Conf%c", 'A'+k)
+			for used[pkg+"."+name] {
+				name += "X"
+			}
+			used[pkg+"."+name] = true
+			g.classes = append(g.classes, classInfo{pkg: pkg, name: name, methods: []string{g.pick(methodNames)}, isIface: ifaces})
+			g.forceImport[len(g.classes)-1] = quals[k]
+		}
+	}
 	p := &Project{}
 	for i := range g.classes {
 		f := g.genFile(i)
@@ -352,6 +374,14 @@ func (g *gctx) genFile(fi int) *JFile {
 			}
 		}
 	}
+	if f.Kind == "interface" && t.Bool(1, 2) {
+		// an interface extending another type: resolved through the file's imports
+		typ, imp := g.typeRefClass(fi)
+		if typ != ci.name {
+			f.Implements = append(f.Implements, typ)
+			need(imp)
+		}
+	}
 	// class annotations
 	isController := false
 	base := ""
@@ -372,6 +402,15 @@ func (g *gctx) genFile(fi int) *JFile {
 			case 2:
 				base = "/" + strings.ToLower(ci.name) + "s"
 				f.Annotations = append(f.Annotations, fmt.Sprintf("@RequestMapping(value = %q)", base))
+			}
+			// other class-level annotations after the controller annotation, before or after the mapping
+			if t.Bool(1, 3) {
+				extra := g.pick([]string{"@CrossOrigin(\"*\")", "@SuppressWarnings(\"unchecked\")", "@Secured(\"ROLE_X\")", "@Api(tags = \"x\")", "@Validated", "@Scope(\"request\")"})
+				if len(f.Annotations) > 1 && t.Bool(1, 2) {
+					f.Annotations = append(f.Annotations[:1], append([]string{extra}, f.Annotations[1:]...)...)
+				} else {
+					f.Annotations = append(f.Annotations, extra)
+				}
 			}
 		case k == 3: // plain class carrying mapping annotations but no controller annotation
 			f.Annotations = append(f.Annotations, "@Component")
@@ -405,6 +444,15 @@ func (g *gctx) genFile(fi int) *JFile {
 			}
 			fieldTypes[name] = fl.Type
 			f.Fields = append(f.Fields, fl)
+		}
+	}
+	if q, ok := g.forceImport[fi]; ok {
+		need(q)
+		if f.Kind == "interface" {
+			f.Implements = []string{simple(q)}
+		} else {
+			f.Fields = append(f.Fields, JField{Modifiers: "private", Type: simple(q), Name: "conf"})
+			fieldTypes["conf"] = simple(q)
 		}
 	}
 	if ft, ok := g.forceField[fi]; ok && f.Kind == "class" {
@@ -542,11 +590,27 @@ func (g *gctx) genFile(fi int) *JFile {
 		_ = mi
 		f.Methods = append(f.Methods, m)
 	}
+	// getters/setters of differing lengths (evaluation summary: lengths and their deviation)
+	if g.o.Getters && f.Kind == "class" {
+		ng := t.Int(1, 3)
+		for i := 0; i < ng; i++ {
+			prop := g.pick([]string{"Name", "Size", "Owner", "Code"})
+			kind := g.pick([]string{"get", "set"})
+			m := JMethod{Modifiers: "public", Name: kind + prop + fmt.Sprintf("%d", i), Ret: "void"}
+			for k := 0; k < t.Int(0, 4); k++ {
+				m.Body = append(m.Body, fmt.Sprintf("int pad%d = %d;", k, k))
+			}
+			f.Methods = append(f.Methods, m)
+		}
+	}
 	// imports, in a drawn order
 	var imps []string
 	for q := range imports {
 		if ft, ok := g.forceField[fi]; ok && simple(q) == ft {
 			continue // the twin name must stay un-imported in its user
+		}
+		if fq, ok := g.forceImport[fi]; ok && simple(q) == simple(fq) && q != fq {
+			continue // exactly one import for the conflicting simple name
 		}
 		imps = append(imps, q)
 	}
